@@ -21,7 +21,10 @@ Reference model: a template is a list of parts (`Text(s)` / `Hole(label, formatt
 use std::{
     borrow::Cow,
     fmt,
-    sync::OnceLock,
+    sync::{
+        atomic::{AtomicU64, Ordering},
+        OnceLock,
+    },
 };
 
 use emit::{
@@ -866,6 +869,22 @@ fn unrelated_case(r: &mut Report, seed: u64, i: u64) {
 // fixed pairs and literals
 // ---------------------------------------------------------------------------
 
+static STRIDE: AtomicU64 = AtomicU64::new(1);
+static OFFSET: AtomicU64 = AtomicU64::new(0);
+static COUNTER: AtomicU64 = AtomicU64::new(0);
+
+/// Every `stride`-th fixed pair / call site is run (all of them unless under Miri).
+fn pick() -> bool {
+    let stride = STRIDE.load(Ordering::Relaxed);
+    stride <= 1 || COUNTER.fetch_add(1, Ordering::Relaxed) % stride == OFFSET.load(Ordering::Relaxed) % stride
+}
+
+fn set_stride(stride: u64, offset: u64) {
+    STRIDE.store(stride, Ordering::Relaxed);
+    OFFSET.store(offset, Ordering::Relaxed);
+    COUNTER.store(0, Ordering::Relaxed);
+}
+
 fn t(s: &str) -> MPart {
     MPart::Text(s.to_string())
 }
@@ -909,6 +928,9 @@ fn fixed_pairs(r: &mut Report) {
         (vec![], vec![h("a")]),
     ];
     for (ma, mb) in &pairs {
+        if !pick() {
+            continue;
+        }
         r.eval();
         let mut g = Rng::new(1);
         let pa = parts_of(ma, How::Borrowed, &mut g);
@@ -948,6 +970,9 @@ fn model_of(tpl: &Template) -> Model {
 
 /// A macro-built template against the runtime-built template of the same literal.
 fn site_tpl(r: &mut Report, name: &str, tpl: &Template, want: &[MPart], props: &[Entry], rendered: &str) {
+    if !pick() {
+        return;
+    }
     r.eval();
     r.observe("macro-literal-sites", 1);
     let case = || json!({"section": "sites", "site": name});
@@ -1034,6 +1059,9 @@ fn site_tpl(r: &mut Report, name: &str, tpl: &Template, want: &[MPart], props: &
 }
 
 fn site_text(r: &mut Report, name: &str, got: &str, want: &str) {
+    if !pick() {
+        return;
+    }
     r.eval();
     r.observe("macro-literal-sites", 1);
     r.observe("renders", 1);
@@ -1176,13 +1204,18 @@ fn main() {
     }
 
     let seed = args.seed;
+    // Miri interprets ~10^4 x slower than the optimised build: sizes there are absolute (times
+    // --scale) and the fixed sections are sub-sampled by seed (`--tiny 1` does the same natively)
+    let miri = cfg!(miri) || args.get("tiny").is_some();
+    if miri {
+        set_stride(4, seed);
+    }
     fixed_pairs(&mut r);
     macro_sites(&mut r);
 
-    let miri = cfg!(miri) || args.get("tiny").is_some();
-    let n_seeded = if miri { (40 * args.scale / 100).max(1) } else { args.n(300_000, 12_000_000) };
+    let n_seeded = if miri { (6 * args.scale / 100).max(1) } else { args.n(300_000, 12_000_000) };
     par_cases(&mut r, &args, n_seeded, |i, r| seeded_case(r, seed, i));
-    let n_unrelated = if miri { (20 * args.scale / 100).max(1) } else { args.n(200_000, 8_000_000) };
+    let n_unrelated = if miri { (4 * args.scale / 100).max(1) } else { args.n(200_000, 8_000_000) };
     par_cases(&mut r, &args, n_unrelated, |i, r| unrelated_case(r, seed, i));
 
     std::process::exit(r.finish());
